@@ -134,8 +134,10 @@ func runPlan(p plan) (o outcome) {
 	var res []int
 	var errs []error
 	flags := make([]byte, n)
-	panicked := false
-	func() {
+	panicked, hung := false, false
+	finished := make(chan struct{})
+	go func() {
+		defer close(finished)
 		defer func() {
 			if recover() != nil {
 				panicked = true
@@ -150,6 +152,11 @@ func runPlan(p plan) (o outcome) {
 			}
 		}
 	}()
+	select {
+	case <-finished:
+	case <-time.After(5 * time.Second): // every task is done within a millisecond: All never returned
+		hung = true
+	}
 	outs := make([]string, n)
 	type rk struct{ i, r int }
 	var order []string
@@ -171,6 +178,10 @@ func runPlan(p plan) (o outcome) {
 	o.lhs = "all " + strconv.Itoa(n) + " " + p.token() + " " + hlib.Join(order, ",")
 	if n > 0 {
 		o.lhs += " " + strings.Join(outs, " ")
+	}
+	if hung {
+		o.rhs = "hang"
+		return
 	}
 	if panicked {
 		o.rhs = "panic"
